@@ -153,7 +153,7 @@ inductive RefKind where
   | deployment      -- apps/v1 Deployment
   | nativeSts       -- apps/v1 StatefulSet
   | advancedSts     -- apps.kruise.io/v1beta1 (or v1alpha1) StatefulSet
-  | replicaSet      -- apps/v1 ReplicaSet: "supported" by group/kind, read by the StatefulSet-like control
+  | replicaSet      -- apps/v1 ReplicaSet: "supported" by group/kind, but no control plane serves it
   | unsupported     -- a group/kind that is not in `knownWorkloadGVKs` (workload-type filter on)
   deriving Repr, DecidableEq, Inhabited
 
@@ -170,14 +170,22 @@ inductive PlaneId where
 def effectiveStyle (s : Style) (enableExtra : Bool) : Style :=
   if s = .empty ∧ enableExtra then .canary else s
 
-/-- the partition-style arm of the switch (also reached from `Canary` by `fallthrough`) -/
-def partitionArm : RefKind → PlaneId
-  | .cloneSet => .csPartition
-  | .daemonSet => .dsPartition
-  | .deployment => .depPartition
-  | _ => .stsLike
+/-- the default after the switch: the StatefulSet-like control serves StatefulSets (native, Advanced) only; the other known
+    kinds that no arm serves under the given style (ReplicaSet, Deployment, CloneSet, DaemonSet) are refused like an unsupported
+    workload ("rolling style … is not supported for the workload type …") — its helpers would panic on them -/
+def stsArm : RefKind → Option PlaneId
+  | .nativeSts | .advancedSts => some .stsLike
+  | _ => none
 
-/-- `Executor.getReleaseController`: `none` = error "the workload type is not supported" -/
+/-- the partition-style arm of the switch (also reached from `Canary` by `fallthrough`) -/
+def partitionArm : RefKind → Option PlaneId
+  | .cloneSet => some .csPartition
+  | .daemonSet => some .dsPartition
+  | .deployment => some .depPartition
+  | k => stsArm k
+
+/-- `Executor.getReleaseController`: `none` = error "the workload type is not supported" / "rolling style is not supported for
+    the workload type" -/
 def dispatch (k : RefKind) (s : Style) (enableExtra : Bool) : Option PlaneId :=
   if k = .unsupported then none else
   match effectiveStyle s enableExtra with
@@ -185,13 +193,13 @@ def dispatch (k : RefKind) (s : Style) (enableExtra : Bool) : Option PlaneId :=
     match k with
     | .cloneSet => some .csBlueGreen
     | .deployment => some .depBlueGreen
-    | _ => some .stsLike
+    | _ => stsArm k
   | .canary =>
     match k with
     | .deployment => some .depCanary
-    | _ => some (partitionArm k)
-  | .partition | .empty => some (partitionArm k)
-  | .other => some .stsLike
+    | _ => partitionArm k
+  | .partition | .empty => partitionArm k
+  | .other => stsArm k
 
 /-- `Executor.Do` + `updateStatus` when `getReleaseController` fails: the initialised status is persisted,
     nothing else happens, no error is returned. -/
